@@ -151,19 +151,19 @@ def doAct (life : Nat) (st : String) (n : Nat) (x : Ex) : HAct → Except String
     if (x.g.threads t).pc == .idle then
       match stepThr life x.g t with
       | some g' => pure (settle life st n 300 { x with g := g' })
-      | none => throw "outside-domain: start"
-    else throw "outside-domain: start of a started thread"
+      | none => throw "start disabled"
+    else throw "start of a started thread"
   | .release t =>
     if isYield st (x.g.threads t).pc then
       match stepThr life x.g t with
       | some g' => pure (settle life st n 300 { x with g := g' })
-      | none => throw "outside-domain: release"
-    else throw "outside-domain: release of a thread that is not parked (model)"
+      | none => throw "release disabled"
+    else throw "release of a thread that is not parked in the model"
   | .fault t =>
     if st == "M" then throw "outside-domain: fault on the built-in storage/lock"
     else match stepFault x.g t with
       | some g' => pure (settle life st n 300 { x with g := g' })
-      | none => throw "outside-domain: fault where no call is pending (model)"
+      | none => throw "fault where no call is pending in the model"
   | .tick d => pure { x with g := { x.g with now := x.g.now + d } }
 
 /-! ### rendering -/
@@ -235,16 +235,21 @@ def handleCase (f : List String) : Except String Verdict := do
     if acts.length > 5000 then throw "outside-domain: too many actions"
     let dflt : ThrIn := { method := 'G', key := '-', status := 200, body := false, hdrs := 0, err := false }
     let reqF : Nat → Req := fun t => reqOf (ins.getD t dflt)
-    -- model
-    let mut x : Ex := { g := init reqF cc.t0 }
-    let mut poss : List String := []
-    for a in acts do
-      x ← doAct cc.life cc.st n x a
-      poss := positions n x.g :: poss
-    let modelPos := if poss.isEmpty then "-" else ",".intercalate poss.reverse
-    let modelRes := if n == 0 then "-" else
-      ",".intercalate ((List.range n).map fun t => resultOf cc ins t (x.g.threads t))
-    let modelObs := modelPos ++ "|" ++ modelRes
+    -- model (if the implementation left the modelled behaviour the model cannot follow the actions: that is a
+    -- correspondence failure, not a malformed case — the oracle below is still evaluated)
+    let runModel : Except String String := do
+      let mut x : Ex := { g := init reqF cc.t0 }
+      let mut poss : List String := []
+      for a in acts do
+        x ← doAct cc.life cc.st n x a
+        poss := positions n x.g :: poss
+      let modelPos := if poss.isEmpty then "-" else ",".intercalate poss.reverse
+      let modelRes := if n == 0 then "-" else
+        ",".intercalate ((List.range n).map fun t => resultOf cc ins t (x.g.threads t))
+      pure (modelPos ++ "|" ++ modelRes)
+    let modelObs := match runModel with
+      | .ok s => s
+      | .error e => "model-cannot-follow(" ++ e ++ ")"
     -- implementation observation
     let [implPos, implRes] := impl.splitOn "|" | throw "outside-domain: obs"
     let iposs := if implPos == "-" then [] else implPos.splitOn ","
